@@ -1487,10 +1487,29 @@ def gen_c02_wide(rng):
             "ops": ops, "label": "int", "mode": "tol", "reward_style": "float"}
     return {"base": base, "seed2": rng.randint(0, 10**9)}
 
+def gen_c02_near_constant(rng):
+    """scale=True and a feature whose spread within an arm is positive but below the scaler's tolerance (values differing by multiples of
+    1e-7: standard deviation <= 1e-6): fix_small_variance treats the column as constant (centred, not divided)"""
+    kind = rng.choice(gen.LIN_KINDS)
+    d = rng.randint(2, 4); j0 = rng.randrange(d)
+    arms = rng.sample(range(0, 9), 2)
+    n = rng.randint(8, 20)
+    ds = [arms[i % 2] for i in range(n)]
+    c0 = float(rng.randint(1, 5))
+    cx = [[(c0 + rng.randint(0, 3) * 1e-7) if j == j0 else float(rng.randint(0, 6)) for j in range(d)] for _ in range(n)]
+    w = [rng.uniform(-1, 1) for _ in range(d)]
+    rs = [float(round(sum(a * b for a, b in zip(w, row)) + rng.uniform(-0.5, 0.5), 3)) for row in cx]
+    hp = 0.0 if kind == "lingreedy" else (1e-9 if kind == "lints" else rng.choice([0.5, 1.0]))
+    base = {"arms": arms, "lp": (kind, hp, rng.choice([0.5, 1.0, 2.0]), True, True), "np": None, "seed": rng.randint(0, 10**6),
+            "ops": [("fit", ds, rs, cx)], "label": "int", "mode": "tol", "reward_style": "float"}
+    return {"base": base, "seed2": rng.randint(0, 10**9)}
+
 def gen_c02(rng, tier):
     z = rng.random()
     if z < 0.04:
         return gen_c02_large(rng)
+    if z > 0.95:
+        return gen_c02_near_constant(rng)
     if z < 0.12:
         return gen_c02_wide(rng)
     base = gen.gen_ctx_case(rng, nps=["none"], lps=gen.LIN_KINDS, max_ops=5, reward_styles=["dyadic", "smallint", "float"], queries=False,
